@@ -372,7 +372,7 @@ extern int g_case_timeout_s;  // watchdog per isolated case (cases take millisec
 extern long g_rss_limit_mb;   // a child growing beyond this is killed (reported like a hang)
 #ifdef VF_MAIN
 std::string g_tmpdir;
-int g_case_timeout_s = 20;
+int g_case_timeout_s = 45;
 long g_rss_limit_mb = 3072;
 #endif
 
